@@ -446,8 +446,17 @@ func c16Check(c C16Case, cx *h.Ctx) *h.Failure {
 		}
 	}
 	// WKB / WKT round trips keep everything
-	if b, err := geom.UnmarshalWKB(g.AsBinary(), geom.NoValidate{}); err != nil || gm.Diff(model, gm.FromGeom(b)) != "" {
+	wkbBuf := g.AsBinary()
+	if b, err := geom.UnmarshalWKB(wkbBuf, geom.NoValidate{}); err != nil || gm.Diff(model, gm.FromGeom(b)) != "" {
 		return fail("ctype/wkb-roundtrip", "WKB round trip changed the geometry (%v)", err)
+	} else {
+		// the round-tripped value keeps every ordinate also after the caller has reused the buffer
+		for i := range wkbBuf {
+			wkbBuf[i] = 0
+		}
+		if d := gm.Diff(model, gm.FromGeom(b)); d != "" {
+			return fail("ctype/wkb-roundtrip", "the geometry decoded from WKB changed when the input buffer was cleared: %s", d)
+		}
 	}
 	if b, err := geom.UnmarshalWKT(g.AsText(), geom.NoValidate{}); err != nil || gm.Diff(model, gm.FromGeom(b)) != "" {
 		return fail("ctype/wkt-roundtrip", "WKT round trip changed the geometry (%v)", err)
